@@ -45,7 +45,8 @@ def check(w, tier, t0):
         spaces = [dict(METHODS='{"Where", "Or", "Returning"}', HOWS='{"Session"}', FINISHERS='{"Find", "Count"}', MAXOPS=4, MAXHANDLES=2),
                   dict(METHODS='{"Model", "Order"}', HOWS='{"Session", "SessionNewDBCtx", "SessionNewDBSkipHooks"}', FINISHERS='{"Count", "Find", "Create"}', MAXOPS=4, MAXHANDLES=2),
                   dict(METHODS='{"Model", "Order"}', HOWS='{"Session"}', FINISHERS='{"Count", "Find"}', MAXOPS=5, MAXHANDLES=2),
-                  dict(METHODS='{"SelectRel", "Where"}', HOWS='{"Session"}', FINISHERS='{"DeleteRec", "Find"}', MAXOPS=4, MAXHANDLES=2)]
+                  dict(METHODS='{"SelectRel", "Where"}', HOWS='{"Session"}', FINISHERS='{"DeleteRec", "Find"}', MAXOPS=4, MAXHANDLES=2),
+                  dict(METHODS='{"SelectField"}', HOWS='{"Session"}', FINISHERS='{"CountOther", "Find", "Count"}', MAXOPS=4, MAXHANDLES=2)]
         nrand = 800
     else:
         spaces = [dict(METHODS='{"Where", "Or", "Returning", "Joins"}', HOWS='{"Session", "WithContext"}', FINISHERS='{"Find", "Count", "Update"}', MAXOPS=5, MAXHANDLES=2),
